@@ -103,7 +103,13 @@ func getOctoSQLType(value *fastjson.Value) octosql.Type {
 	case fastjson.TypeObject:
 		obj, _ := value.Object()
 		fields := make([]octosql.StructField, 0, obj.Len())
+		seen := make(map[string]struct{}, obj.Len())
 		obj.Visit(func(key []byte, v *fastjson.Value) {
+			// Of a repeated key only the first occurrence counts, as that's the one Object.Get returns when reading the value.
+			if _, ok := seen[string(key)]; ok {
+				return
+			}
+			seen[string(key)] = struct{}{}
 			fields = append(fields, octosql.StructField{
 				Name: string(key),
 				Type: getOctoSQLType(v),
